@@ -248,6 +248,8 @@ def conforms(h, v, case):
     if k in ('list', 'dict'):
         return vk == k and (v[2] == 0 or conforms(h[1], v[1], case))
     if k == 'tupv':
+        if vk == 'tuple':
+            return all(conforms(h[1], x, case) for x in v[1])
         return vk == 'tuplen' and (v[2] == 0 or conforms(h[1], v[1], case))
     if k == 'seq':
         if vk in ('str', 'bytes'):
@@ -288,6 +290,9 @@ def gen_atom(rng, name):
     return ('float', rng.choice([0.5, -1.25]))
 
 
+DENSE = [0]   # 1 while minimising: satisfying containers are non-empty and thrice as many calls are drawn
+
+
 def gen_sat(rng, h, case):
     k = h[0]
     if k == 'ref':
@@ -306,11 +311,11 @@ def gen_sat(rng, h, case):
     if k in ('union', 'bar'):
         return gen_sat(rng, rng.choice(h[1]), case)
     if k in ('list', 'dict'):
-        return (k, gen_sat(rng, h[1], case), rng.randint(0, 3))
+        return (k, gen_sat(rng, h[1], case), rng.randint(DENSE[0], 3))
     if k == 'tupv':
-        return ('tuplen', gen_sat(rng, h[1], case), rng.randint(0, 3))
+        return ('tuplen', gen_sat(rng, h[1], case), rng.randint(DENSE[0], 3))
     if k == 'seq':
-        return (rng.choice(['list', 'tuplen']), gen_sat(rng, h[1], case), rng.randint(0, 3))
+        return (rng.choice(['list', 'tuplen']), gen_sat(rng, h[1], case), rng.randint(DENSE[0], 3))
     if k == 'tupf':
         return ('tuple', [gen_sat(rng, c, case) for c in h[1]])
     if k == 'type':
@@ -545,7 +550,9 @@ class Case:
         else:
             # (a callable inside a function is decorated when get() runs, i.e. after the whole module body)
             defined = not r.after or (s == 0 and self.a >= 1)
-            scope = 'module' if sk == 'module' else ('enclosing-function' if s == self.a else 'outer-enclosing-function')
+            # 'enclosing-function' = the function whose body directly holds the decorated function / class
+            near = s == self.a and (self.b == 0 or self.deco == 'class')
+            scope = 'module' if sk == 'module' else ('enclosing-function' if near else 'outer-enclosing-function')
         return f'{pre}{sp}:head-{"defined" if defined else "undefined"}-at-decoration-in-{scope}'
 
     def via_root(self, i):
@@ -767,6 +774,8 @@ def gen_calls(rng, case, imp=True):
             ret = gen_sat(rng, case.ret, case)
         return dict(args=args, ret=ret, kw=rng.random() < .3, bad=bad)
     plan = [None] + pos + [rng.choice(pos + [None]) for _ in range(rng.randint(2, 4))]
+    if DENSE[0]:
+        plan = plan * 3
     rng.shuffle(plan)
     return [one(bad) for bad in plan]
 
@@ -874,9 +883,8 @@ def classify(pkg, case, variant, calls, inside, oe, ov):
                 culprit = p
                 break
     if culprit is None:
-        kinds = sorted({case.refmech(i) for i in case.used_refs()})
-        return (f'{case.unit()}:{"+".join(kinds)}:hint=several-annotations-together',
-                symptom(outcome(oe), outcome(ov)), None)
+        # (no single annotation reproduces it with these calls: keyed coarsely, the witness carries the program)
+        return 'only-with-several-annotations-together', symptom(outcome(oe), outcome(ov)), None
     c2 = copy.copy(case)
     c2.params = [[pn, (h if j == culprit else None), d] for j, (pn, h, d) in enumerate(case.params)]
     c2.ret = case.ret if culprit == 'ret' else None
@@ -895,7 +903,11 @@ def classify(pkg, case, variant, calls, inside, oe, ov):
         for _ in range(6):
             for child in [c for c in children(h) if refs_in(c)]:
                 c3 = with_hint(c2, child)
-                calls3 = gen_calls(random.Random(repr(child)), c3, imp=False)
+                DENSE[0] = 1
+                try:
+                    calls3 = gen_calls(random.Random(repr(child)), c3, imp=False)
+                finally:
+                    DENSE[0] = 0
                 if differs(pkg, c3, variant, calls3, min(inside, len(calls3))):
                     h, c2, cur_calls = child, c3, calls3
                     break
@@ -906,7 +918,8 @@ def classify(pkg, case, variant, calls, inside, oe, ov):
         vals = [v for j in bad_idx for v in calls[j]['args'] + [calls[j]['ret']]]
         culprit_refs = {i for i in culprit_refs if any(has_kind(v, 'impostor', i) for v in vals)} or culprit_refs
     kinds = sorted({case.refmech(i) for i in culprit_refs})
-    key = f'{case.unit()}:{"+".join(kinds)}' + ('' if h[0] == 'ref' or only_imp else f':hint={NODE_NAMES[h[0]]}')
+    # (what is decorated - function / method / class - is in the witness: the key names the reference form only)
+    key = "+".join(kinds) + ('' if h[0] == 'ref' or only_imp else f':hint={NODE_NAMES[h[0]]}')
     if variant in ('S', 'PS') and h[0] not in ('ref', 'bar') and not only_imp:
         res = {}
         for mode in ('whole', 'minimal'):
@@ -920,11 +933,16 @@ def classify(pkg, case, variant, calls, inside, oe, ov):
     mini, sym = None, symptom(outcome(oe), outcome(ov))
     if outcome(m_e) != outcome(m_v):
         sym = symptom(outcome(m_e), outcome(m_v))
+        if not m_v['decor']:
+            bad = [j for j, (x, y) in enumerate(zip(m_e['trace'], m_v['trace'])) if x != y]
+            only_imp = all(any(has_kind(v, 'impostor') for v in cur_calls[j]['args'] + [cur_calls[j]['ret']])
+                           for j in bad)
         mini = dict(source_E=m_e['src'], source_variant=m_v['src'], calls=[call_repr(c) for c in cur_calls],
                     trace_E=outcome(m_e), trace_variant=outcome(m_v),
                     messages=[m for m in m_v['msgs'] if m][:2] or m_v['decor'])
     if only_imp:
         sym += '(object-of-same-named-unrelated-class)'
+        key = key.split(':hint=')[0]
     return key, sym, mini
 
 
@@ -1016,8 +1034,10 @@ def diff_case(rng, idx, stream, forced=None):
         # and one key covers S and P when both deviate identically
         report = [v for v in ('S', 'P') if outcome(outs[v]) != outcome(oe)]
         vlabel = dict(VARIANT_NAMES)
-        if len(report) == 2 and outcome(outs['S']) == outcome(outs['P']):
-            report, vlabel['S'] = ['S'], 'string-and-postponed'
+        if len(report) == 2:
+            vlabel['S'] = vlabel['P'] = 'string-and-postponed'
+            if outcome(outs['S']) == outcome(outs['P']):
+                report = ['S']
         if not report and outcome(outs['PS']) != outcome(oe):
             report = ['PS']
         for variant in report:
@@ -1025,13 +1045,14 @@ def diff_case(rng, idx, stream, forced=None):
             mech, sym, mini = classify(pkg, case, variant, calls, inside, oe, ov)
             if ov['decor']:
                 key = f'decoration-raised:{ov["decor"][0]}:{vlabel[variant]}:{mech}'
-                what = (f'variant {variant} raised {ov["decor"][0]} while defining / decorating the callable although '
-                        f'the evaluated variant decorates and runs: {ov["decor"][1]}')
+                what = (f'{case.placement()}: variant {variant} raised {ov["decor"][0]} while defining / decorating the '
+                        f'callable although the evaluated variant decorates and runs: {ov["decor"][1]}')
             else:
                 j = next(j for j, (x, y) in enumerate(zip(oe['trace'], ov['trace'])) if x != y)
                 key = f'variants-differ:{vlabel[variant]}-vs-evaluated:{mech}:{sym}'
-                what = (f'call {j} {call_repr(calls[j])}: evaluated variant -> {oe["trace"][j]}, {variant} variant -> '
-                        f'{ov["trace"][j]} {ov["msgs"][j]}')
+                what = (f'{case.placement()}: call {j} {call_repr(calls[j])}: evaluated variant -> {oe["trace"][j]}, '
+                        f'{variant} variant -> {ov["trace"][j]} {ov["msgs"][j]}')
+            count('findings_by_decorated_unit.' + case.unit())
             res['findings'].append((key, what))
             if res['witness'] is None:
                 res['witness'] = dict(placement=case.placement(), variant=variant, inside_calls=inside,
@@ -1040,8 +1061,8 @@ def diff_case(rng, idx, stream, forced=None):
                                       calls=[call_repr(c) for c in calls], trace_E=outcome(oe),
                                       trace_variant=outcome(ov), minimised=mini)
         if res['witness'] is None:
-            res['witness'] = dict(placement=case.placement(), source_S=case.render('S'), calls=[call_repr(c) for c in calls[:4]],
-                                  trace_E=oe['trace'])
+            res['witness'] = dict(placement=case.placement(), source_S=case.render('S'),
+                                  calls=[call_repr(c) for c in calls[:4]], trace_E=oe['trace'])
     finally:
         pkg.close()
     return res
@@ -1164,6 +1185,8 @@ def unres_case(rng, idx, stream):
                     probes.append(('earlier-parameter-violates', c, 'E'))
             for why, c, ref in probes:
                 exp = 'accept' if ref is None else one_call(env_e, oe['ns']['call'], c, case)[0]
+                if ref == 'E' and exp != 'BeartypeCallHintParamViolation':
+                    continue    # (premise not met: the evaluated variant does not stop at the parameter)
                 got, msg = one_call(env, ns['call'], c, und)
                 wit['events'].append((why, call_repr(c), got))
                 count('unres_not_needed_checked')
@@ -1216,20 +1239,22 @@ def unres_case(rng, idx, stream):
                 count('unres_verdict_after.' + verdict_class(v))
             wit['trace_E'], wit['trace_after_definition'] = oe['trace'], trace
             wit['calls'] = [call_repr(c) for c in calls]
-            if trace != oe['trace'] and env_f is not None and trace == ofull['trace']:
+            # a deviating call is this history's only if the defined-later variant does not deviate the same way
+            tf = ofull['trace'] if env_f is not None else [None] * len(trace)
+            mine = [i for i, (x, y, z) in enumerate(zip(oe['trace'], trace, tf)) if x != y and y != z]
+            if trace != oe['trace'] and not mine:
                 count('unres_deviation_shared_with_defined_later_variant(info)')
-            elif trace != oe['trace']:
-                j = next(j for j, (x, y) in enumerate(zip(oe['trace'], trace)) if x != y)
+            elif mine:
+                j = mine[0]
                 try:
                     fwd = issubclass(getattr(roar, trace[j], object), FWD_FAMILY)
                 except TypeError:
                     fwd = False
-                only_imp = all(any(has_kind(v, 'impostor') for v in calls[i]['args'] + [calls[i]['ret']])
-                               for i, (x, y) in enumerate(zip(oe['trace'], trace)) if x != y)
-                sym = symptom(tuple(oe['trace']), tuple(trace)) + (
+                only_imp = all(any(has_kind(v, 'impostor') for v in calls[i]['args'] + [calls[i]['ret']]) for i in mine)
+                sym = symptom((oe['trace'][j],), (trace[j],)) + (
                     '(object-of-same-named-unrelated-class)' if only_imp else '')
                 head = 'still-failing-after-definition' if fwd else f'differs-after-definition:{sym}'
-                key = f'{head}:{case.placement_key()}:{case.refmech(0).split(":")[0]}-name'
+                key = f'{head}:{case.refmech(0).split(":")[0]}-name'
                 res['findings'].append((key, f'after defining {case.spell(0, False)!r} ({define_by}) call {j} '
                                              f'{call_repr(calls[j])}: evaluated -> {oe["trace"][j]}, {variant} -> '
                                              f'{trace[j]} {msgs[j]}'))
